@@ -209,6 +209,40 @@ pub fn check_valid_market(ctx: &mut Ctx, m: &Market, shape: &str) -> Option<FXRa
             }
         }
     }
+    // ... and after derivative-order switches (raised to 2, lowered to 1 or 0): every one of the n*n rates keeps
+    // its value (4 ulps for the second-order build, see DESIGN 9.3) - in particular it is not the transposed table
+    {
+        let mut fx3 = fx.clone();
+        let lower = if tr_hash % 2 == 0 { rateslib::dual::ADOrder::One } else { rateslib::dual::ADOrder::Zero };
+        ctx.eval(1);
+        ctx.class(&format!("after-order-switches:2-then-{}", if tr_hash % 2 == 0 { 1 } else { 0 }));
+        match guarded(|| fx3.set_ad_order(rateslib::dual::ADOrder::Two).is_ok() && fx3.set_ad_order(lower).is_ok()) {
+            Caught::Ok(true) => {}
+            Caught::Ok(false) => {
+                ctx.violation("C09|after-order-switches|refused", json!({"market": m.describe()}));
+                return None;
+            }
+            Caught::Panic { loc, msg } => {
+                if is_harness_location(&loc) {
+                    ctx.harness_error(format!("{} {}", loc, msg));
+                } else {
+                    ctx.violation(&format!("C09|after-order-switches|panic|{}", short_loc(&loc)), json!({"market": m.describe(), "message": msg}));
+                }
+                return None;
+            }
+        }
+        let _ = rateslib::verif::fx_take_trace();
+        for a in 0..n {
+            for b in 0..n {
+                ctx.asserted(1);
+                let got = fx3.rate(&ccys[a], &ccys[b]).map(|x| num_value(&x));
+                if !matches!(got, Some(g) if ulp_diff(g, vals[a][b]) <= 4) {
+                    ctx.violation("C09|after-order-switches|rate-changed", json!({"market": m.describe(), "pair": format!("{}{}", m.ccys[a], m.ccys[b]), "as_built": vals[a][b], "after 1 -> 2 -> lower": got}));
+                    return None;
+                }
+            }
+        }
+    }
     let (diam, maxdeg) = m.diameter_and_maxdeg();
     ctx.class(&format!("tree:n={}", n));
     ctx.class(&format!("tree:diameter={}:maxdeg={}", diam.min(6), maxdeg.min(6)));
@@ -363,6 +397,8 @@ impl Prop for C09 {
         let _ = tier;
         v.push("after-update:base-given".to_string());
         v.push("after-update:base-none".to_string());
+        v.push("after-order-switches:2-then-1".to_string());
+        v.push("after-order-switches:2-then-0".to_string());
         v
     }
     fn min_evaluations(&self, tier: Tier) -> u64 {
